@@ -67,7 +67,19 @@ func (m *monInput) Commit(e *pipeline.Event) {
 	info := pipeline.VerifInfo(e)
 	m.eng.rec.add(Rec{K: "commit", Src: uint64(e.SourceID), Off: e.Offset, Stream: strings.Clone(info.StreamName), Kind: info.Kind})
 }
-func (m *monInput) PassEvent(*pipeline.Event) bool { return true }
+// PassEvent mimics the file input after a restart: a record at or below the
+// saved offset of its stream was committed before and is refused.
+func (m *monInput) PassEvent(e *pipeline.Event) bool {
+	sv := m.eng.saved[uint64(e.SourceID)]
+	if sv == nil {
+		return true
+	}
+	if off, ok := sv[pipeline.VerifInfo(e).StreamName]; ok && e.Offset <= off {
+		atomic.AddInt64(&m.eng.refusedByInput, 1)
+		return false
+	}
+	return true
+}
 
 // ---------------- script action ----------------
 
